@@ -5,7 +5,9 @@
   `order()` counts as (`orderNoneAs`), the built-in list that precedes the custom one.  That a plugin that
   cannot be imported / constructed / is inactive is *skipped and the others still loaded* is the isolation of
   the two loops of the loader, proved on their extracted skeletons in Props/C20.
-  Modelled: `list.sort` is a stable sort (insertion sort here; a stable sort's result is unique).
+  Modelled: `list.sort` is a stable sort (insertion sort here; a stable sort's result is unique); the sort key is the
+  number `order()` returned, compared as Python compares numbers (`Num`: decimals `m / 10^e`, which covers ints, bools
+  and every finite float exactly).  `inf` / `nan` orders are outside the model (not generated).
 -/
 import DeepModel.Extracted.Guards
 import DeepModel.Model.PluginsBase
@@ -15,7 +17,7 @@ open Extracted.Plugins
 
 /-- what `order()` of a constructed plugin does -/
 inductive Order where
-  | value (o : Option Int)    -- returns an int, or `None`
+  | value (o : Option Num)    -- returns a number (int, bool, finite float), or `None`
   | unusable                  -- raises, or returns something that is not a number
 deriving DecidableEq, Repr
 
@@ -40,14 +42,15 @@ def Spec.loadable (s : Spec) : Bool := s.importOk && s.ctorOk && s.active && (s.
 /-- the whole load fails: the order of a kept plugin cannot be used and is only looked at by the sort -/
 def loadRaises (specs : List Spec) : Bool := !orderGuarded && (specs.filter Spec.loadable).any (fun s => !s.orderOk)
 
-/-- `order() or 0` -/
-def Spec.key (s : Spec) : Int :=
+/-- `order() or 0`: the DECLARED order, as the number it is (a falsy one — `None`, 0, 0.0, False — counts as
+    `orderNoneAs`); nothing is rounded or truncated -/
+def Spec.key (s : Spec) : Num :=
   match s.order with
-  | .value (some o) => if o = 0 then orderNoneAs else o
-  | _ => orderNoneAs
+  | .value (some o) => if o.isZero then Num.ofInt orderNoneAs else o
+  | _ => Num.ofInt orderNoneAs
 
 /-- "x may stay in front of y" in the direction the code sorts -/
-def before (x y : Spec) : Bool := if sortReverse then decide (y.key ≤ x.key) else decide (x.key ≤ y.key)
+def before (x y : Spec) : Bool := if sortReverse then y.key.le x.key else x.key.le y.key
 
 def insert (x : Spec) : List Spec → List Spec
   | [] => [x]
